@@ -2,7 +2,7 @@
    Kept out of Properties_C20.v on purpose: when upstream fixes the defects this file stops compiling,
    which the check reports as "finding no longer reproduces", not as a violation. *)
 From Coq Require Import List String ZArith Bool.
-Require Import PPLV.CIface.Exn PPLV.CIface.Entries PPLV.gen.Facts_CIface PPLV.CIface.C20.
+Require Import PPLV.CIface.Exn PPLV.CIface.Entries PPLV.CIface.Spec PPLV.gen.Facts_CIface PPLV.CIface.C20.
 Import ListNotations.
 Open Scope string_scope.
 
